@@ -47,6 +47,7 @@ func checkFlagOrder(c *Check, p *Prog, pkg, key string) {
 		f int
 	}
 	bound := map[vkey]string{}
+	var custom []string
 	keyOf := func(v ssa.Value) (vkey, bool) {
 		switch t := v.(type) {
 		case *ssa.Global:
@@ -67,6 +68,11 @@ func checkFlagOrder(c *Check, p *Prog, pkg, key string) {
 				}
 				cal := call.Common().StaticCallee()
 				if cal == nil || cal.Pkg == nil || cal.Pkg.Pkg.Path() != "flag" || !strings.HasSuffix(cal.Name(), "Var") || len(call.Common().Args) < 2 {
+					continue
+				}
+				if cal.Name() == "Var" {
+					// flag.Var / (*FlagSet).Var: the value is parsed by a user-defined Set method
+					custom = append(custom, p.Pos(in.Pos()))
 					continue
 				}
 				if k0, ok := keyOf(call.Common().Args[0]); ok {
@@ -216,6 +222,14 @@ func checkFlagOrder(c *Check, p *Prog, pkg, key string) {
 		names = append(names, "-"+n)
 	}
 	sort.Strings(names)
+	// R-FLAG-BIND: what the user typed is what the pipeline reads only for the typed binders of package flag (IntVar,
+	// StringVar, BoolVar ...), whose parsing is the standard library's. A custom flag.Value registered with flag.Var
+	// parses (clamps, rewrites) in user code that no rule here follows.
+	if len(custom) == 0 {
+		c.Ok("R-FLAG-BIND", key, where, "every command-line variable (%s) is bound by a typed binder of package flag; no custom flag.Value", strings.Join(names, " "))
+	} else {
+		c.Undecided("R-FLAG-BIND", key, where, "a flag is registered with flag.Var at %s: its value is produced by a user-defined Set method (it may clamp or rewrite what was typed, e.g. to zero workers) that the flag rules do not analyse", strings.Join(custom, ", "))
+	}
 	c.Expect(len(bad) == 0 && len(bound) > 0, "R-FLAG-ORDER", key, where,
 		fmt.Sprintf("every read of the command-line variables (%s) in main, and every use in main of the %d functions that read them, follows flag.Parse()", strings.Join(names, " "), nSites),
 		strings.Join(bad, "; "))
